@@ -182,8 +182,8 @@ def oracle_supercell(cell, S, sc):
     s2u = np.array(sc.s2u_map)
     u2s = np.array(sc.u2s_map)
     u2u = {int(k): int(v) for k, v in sc.u2u_map.items()}
-    if list(u2s) != [u * N for u in range(nu)] or u2u != {u * N: u for u in range(nu)}:
-        fails.append(("maps", "u2s_map/u2u_map are not [0, N, 2N, ...]"))
+    if len(u2s) != nu or len(set(int(x) for x in u2s)) != nu or u2u != {int(u2s[u]): u for u in range(nu)} or any(not 0 <= int(x) < ns for x in u2s):
+        fails.append(("maps", "u2u_map is not the inverse of an injective u2s_map"))
         return fails
     if len(s2u) != ns or any(int(x) not in u2u for x in s2u):
         fails.append(("maps", "s2u_map has entries that are not unit-cell representatives"))
@@ -462,8 +462,9 @@ def main(run):
         run.count("snf: divisibility chain d0|d1|d2 holds" if chain else "snf: divisibility chain d0|d1|d2 does NOT hold")
         run.count("oracle-snf", section="oracle")
         if not okk:
-            run.violation("SNF3x3.run", "not-a-smith-normal-form", "D,P,Q returned by SNF3x3 are not a Smith normal form of A",
-                          dict(A=m.tolist(), D=s.D.tolist(), P=s.P.tolist(), Q=s.Q.tolist()))
+            # a statement about the mechanism (not the property's public end effect): the tiling oracle below decides
+            run.broke("correspondence", "D,P,Q returned by SNF3x3 are not what its docstring promises (D = PAQ diagonal positive, unimodular P, Q)",
+                      dict(A=m.tolist(), D=s.D.tolist(), P=s.P.tolist(), Q=s.Q.tolist()))
     for m in [np.zeros((3, 3), dtype=int), np.array([[0, 1, 1], [0, 2, 1], [0, 1, 3]]), np.array([[1, 2, 3], [2, 4, 6], [0, 0, 0]])]:
         # first column zero -> "Determinant is 0."; other singular matrices are outside the property (det != 0)
         s = SNF3x3(m)
@@ -483,7 +484,7 @@ def main(run):
         run.count("xgcd-pairs")
         run.count("oracle-xgcd", section="oracle")
         if r != a * s_ + b * t or r == 0 or a % r or b % r or abs(r) != np.gcd(a, b):
-            run.violation("Xgcd.run", "not-a-bezout-triple", "r,s,t = %d,%d,%d for (%d,%d)" % (r, s_, t, a, b), dict(a=a, b=b))
+            run.broke("correspondence", "Xgcd: r,s,t = %d,%d,%d is not a Bezout triple of (%d,%d)" % (r, s_, t, a, b), dict(a=a, b=b))
 
     # ------------------------------------------------------------ centring tables
     from phonopy.structure.cells import get_primitive_matrix_by_centring
@@ -837,12 +838,11 @@ def main(run):
             run.count("frame-certificates", section="correspondence")
             if o != "1":
                 run.broke("correspondence", "frameComplete = false: the surrounding frame of the classic route misses a residue class", info)
-                run.violation("get_supercell(is_old_style=True)", "frame-incomplete", "surrounding frame does not meet every class of Z^3/SZ^3", info)
         elif kind == "stables":
             run.count("table-certificates", section="correspondence")
             if o != "1":
+                # the certificate fixes the index layout u2s[u] = u*N (representation); the end effect is checked by oracle_supercell
                 run.broke("correspondence", "STables.wf = false on the implementation's s2u/u2s maps", info)
-                run.violation("get_supercell(is_old_style=%s)" % info["old"], "maps", "s2u_map/u2s_map fail the well-formedness certificate", info)
         elif kind == "ptables":
             run.count("table-certificates", section="correspondence")
             if o != "11" and info["consistent"]:
